@@ -1,4 +1,4 @@
-import SpecVerif.Model.C10
+import SpecVerif.Model.C10H
 /-!
 Line-protocol driver for the C10 correspondence: evaluates `pyEq`, `deepcopy`, `reconstruct`,
 `reconstructible`, `reprOf` of `SpecVerif.C10` — the definitions the theorems of `Props/C10.lean` are about.
@@ -23,6 +23,14 @@ Commands:
   new <cls> <n> v..           -> I <cls> <n> v..   what `cls(**kwargs)` shows (`_` = not passed / MISSING); owners of
                                  bound methods that the constructor copied are printed as `c`
   repr <i>                    -> <ClassName> <attr>=<kind> ...
+  meta <key|-> <overflow|-> <attrs_skip given 0|1> | <inherited names> | <body annotations> | <attrs> | <attrs_typed keys> | <attrs_skip>
+                              -> the key order of `metadata.attrs` (`metaOrder`), names separated by spaces (`-` = none)
+Histories (`runH` of `Model/C10H.lean`, one step per line; a slot is a value, `X<flags e r c>:<identity>` = an object
+whose ==/!= (e), repr (r), deepcopy (c) raise, or `G` = reading the attribute raises):
+  hst <idx> <cls> <n> slot..  -> ok          the attributes of object idx now have these values (`HOp.put`)
+  heq <i> <j>                 -> 1|0|raised  (`HOp.cmp`: outcome of x_i == x_j, `eqO`)
+  hrepr <i>                   -> raised | <ClassName> <attr>=<kind> ...   (`HOp.repr`, `reprO`)
+  hcopy <i>                   -> raised | ok (`HOp.copy`, `copyRaises`)
 -/
 open SpecVerif.C10
 
@@ -93,7 +101,36 @@ partial def parseVal (ts : List String) : Option (Val × List String) :=
       | 's' :: x => some (.str (String.ofList x), r)
       | _ => none
 
+/-- One slot: `G`, `X<flags>:<id>`, or a value. -/
+partial def parseSlot (ts : List String) : Option (Slot × List String) :=
+  match ts with
+  | [] => none
+  | t :: r =>
+    if t == "G" then some (.getterRaises, r)
+    else match t.toList with
+      | 'X' :: x =>
+        (match (String.ofList x).splitOn ":" with
+         | [fl, i] => i.toNat?.map (fun n =>
+             (.boom { id := n, eqRaises := fl.contains 'e', reprRaises := fl.contains 'r', copyRaises := fl.contains 'c' }, r))
+         | _ => none)
+      | _ => (parseVal ts).map (fun (v, r) => (.val v, r))
+
+partial def parseSlots (n : Nat) (ts : List String) : Option (List Slot × List String) :=
+  match n with
+  | 0 => some ([], ts)
+  | n + 1 => do
+    let (s, ts) ← parseSlot ts
+    let (r, ts) ← parseSlots n ts
+    pure (s :: r, ts)
+
+/-- Split a token list at `|` separators. -/
+def splitBars (ts : List String) : List (List String) :=
+  ts.foldr (fun t acc => if t == "|" then [] :: acc else match acc with
+    | g :: gs => (t :: g) :: gs
+    | [] => [[t]]) [[]]
+
 structure DSt where
+  heap : Heap := []                   -- histories (`hst`)
   table : Table := []
   states : List (Nat × Val) := []
   stored : List (Nat × Val) := []     -- the instances' own state (`__dict__` entries), `sto`
@@ -235,6 +272,41 @@ def handle (d : DSt) (line : String) : DSt × String :=
     match (i.toNat?.bind d.get).bind (reprOf d.table) with
     | some (name, es) => (d, " ".intercalate (name :: es.map (fun e => s!"{e.1}={showKind d.table e.2}")))
     | none => (d, "bad-repr")
+  | "meta" :: key :: ovf :: sg :: "|" :: rest =>
+    (match splitBars rest with
+     | [inh, ann, attrs, typed, skip] =>
+       let o : DecoOpts := { annotations := ann, attrs := attrs, typed := typed, skipGiven := sg == "1", skipNames := skip,
+                             overflow := if ovf == "-" then none else some ovf, key := if key == "-" then none else some key }
+       let r := metaOrder inh o
+       (d, if r.isEmpty then "-" else " ".intercalate r)
+     | _ => (d, "bad-meta"))
+  | "hst" :: idx :: c :: n :: rest =>
+    (match idx.toNat?, c.toNat?, n.toNat?.bind (fun n => parseSlots n rest) with
+     | some i, some c, some (ss, []) => ({ d with heap := heapStep d.heap (.put i c ss) }, "ok")
+     | _, _, _ => (d, "bad-hst"))
+  | ["heq", i, j] =>
+    (match i.toNat?, j.toNat? with
+     | some i, some j =>
+       (match outStep d.table d.heap (.cmp i j) with
+        | .cmp (.ok b) => (d, b2s b)
+        | .cmp .raised => (d, "raised")
+        | _ => (d, "bad-heq"))
+     | _, _ => (d, "bad-heq"))
+  | ["hrepr", i] =>
+    (match i.toNat? with
+     | some i =>
+       (match outStep d.table d.heap (.repr i) with
+        | .repr none => (d, "raised")
+        | .repr (some (name, es)) => (d, " ".intercalate (name :: es.map (fun e => s!"{e.1}={showKind d.table e.2}")))
+        | _ => (d, "bad-hrepr"))
+     | none => (d, "bad-hrepr"))
+  | ["hcopy", i] =>
+    (match i.toNat? with
+     | some i =>
+       (match outStep d.table d.heap (.copy i) with
+        | .copy r => (d, if r then "raised" else "ok")
+        | _ => (d, "bad-hcopy"))
+     | none => (d, "bad-hcopy"))
   | _ => (d, "bad-op")
 
 partial def loop (h : IO.FS.Stream) (out : IO.FS.Stream) (st : DSt) : IO Unit := do
